@@ -330,6 +330,12 @@ Aligned == /\ Len(shell) = NS /\ Len(slv) = NS /\ Len(sbl) = NS /\ Len(nsamp) = 
 ShellPartition == \A i \in 1..NS : \A k \in 1..Len(shell[i]) :
       LET id == shell[i][k] IN /\ bseq[i] \in inb[id]
                                 /\ \A j \in (i + 1)..NS : bseq[j] \notin inb[id]
+\* what shell_bound_occupation(fractional=False) reports: entry (i, k) = number of stored points of shell i that lie
+\* inside bound k.  By ShellPartition the matrix is lower triangular with the shell sizes on the diagonal.
+Occupation == [i \in 1..NS |-> [k \in 1..NS |->
+                 Cardinality({j \in DOMAIN shell[i] : bseq[k] \in inb[shell[i][j]]})]]
+OccupationTriangular == Aligned => \A i \in 1..NS : /\ Occupation[i][i] = Len(shell[i])
+                                                       /\ \A k \in (i + 1)..NS : Occupation[i][k] = 0
 InCube == \A id \in Ids : cube[id]
 \* C03
 NoDup == Len(AllStoredSeq) = Cardinality(StoredSet)
